@@ -158,7 +158,7 @@ class FaultPlan:
             x = OSError(errno.ENOSPC, f'injected ENOSPC at {site}')
             x._vt_injected = True
             return x
-        if kind == 'valueerror':
+        if kind in ('valueerror', 'hard:valueerror'):
             x = ValueError(f'injected ValueError at {site}')
             x._vt_injected = True
             return x
@@ -343,7 +343,9 @@ class FakeS3:
 
     def new_etag(self, tag):
         self.netag += 1
-        return f'"etag-{tag}-{self.netag}"'
+        # scrambled so that ETag order is unrelated to part / request order
+        h = (self.netag * 2654435761 + 12345) % 4294967291
+        return f'"{h:08x}-{tag}-{self.netag}"'
 
 
 class FakeClient:
